@@ -347,6 +347,39 @@ func run(c *fw.Ctx) {
 		c.Count("family_FP_complete", 1)
 	}
 	fp()
+	// FC: callee class PRECOMPILE.  Every precompile of the table under test x (accepted input /
+	// rejected input / gas 0) x value (0 / >0) x target (absent / existing), called by the root
+	// (every outcome) and by a depth-2 frame of every kind x outcome; and, on a committed
+	// pre-state (Commit + re-open oracle), by the root and by a depth-2 frame of a reduced alphabet
+	fc := func() {
+		defer func() { en.pm = preNone }()
+		pv := precVariants()
+		c.Note("precompile_variants", len(pv))
+		red := nonRootSpecs([]int{kCall, kDelegate, kStatic, kCreate}, []int{oReturn, oRevert}, []int{eNone})
+		prec := func(s spec, a int) *Node { return &Node{K: s.K, O: s.O, E: ePrecompile, A: a} }
+		for pass, mid := range [][]spec{ko, red} {
+			en.pm = []int{preNone, preCommitted}[pass]
+			nm, nv := int64(len(mid)), int64(len(pv))
+			for t := int64(0); t < 4*(1+nm)*nv; t++ {
+				tt := t
+				if !en.tree(func() *Node {
+					a := pv[tt%nv]
+					tt /= nv
+					r := plainRoots[tt%4]
+					tt /= 4
+					if tt == 0 {
+						return prec(r, a)
+					}
+					return mk(r, prec(mid[tt-1], a))
+				}) {
+					c.Cap("frame-trees: family FC not finished (time)")
+					return
+				}
+			}
+		}
+		c.Count("family_FC_complete", 1)
+	}
+	fc()
 	rootOut := []int{oReturn, oRevert, oInvalid, oOOG}
 	if c.Thorough() {
 		f1()
